@@ -1,5 +1,6 @@
 #!/bin/bash
 # setup_cmd: regenerate Gen/ from /repo, full Coq build, extract + build every model driver. Offline.
 cd "$(dirname "$0")"
-export PYTHONHASHSEED=0 PYTHONDONTWRITEBYTECODE=1 PYTHONPATH=/repo
+export VERIF_REPO="${VERIF_REPO:-/repo}"
+export PYTHONHASHSEED=0 PYTHONDONTWRITEBYTECODE=1 PYTHONPATH="$VERIF_REPO"
 exec /venv/bin/python tools/setup_all.py
